@@ -204,6 +204,9 @@ M("c14-last-shared", "C14", "flexstack/facilities/local_dynamic_map/ldm_service.
 M("c14-snapshot-revert", "C14", "flexstack/facilities/local_dynamic_map/ldm_service.py",
   "            if subscription not in self.subscriptions:\n                return\n            last_checked = self.last_checked_subscriptions_time.get(subscription)", "            last_checked = self.last_checked_subscriptions_time.get(subscription)",
   "revert: a subscription removed during an attendance pass is still notified by it")
+M("c16-snapshot-revert", "C16", "flexstack/facilities/local_dynamic_map/ldm_service.py",
+  "            if subscription not in self.subscriptions:\n                return\n            last_checked = self.last_checked_subscriptions_time.get(subscription)", "            last_checked = self.last_checked_subscriptions_time.get(subscription)",
+  "revert: a subscription removed by another thread during an attendance pass is still notified by it")
 
 # ---------------------------------------------------------------- C09
 M("c09-no-sig", "C09", "flexstack/security/certificate.py",
